@@ -99,9 +99,18 @@ def refactors(argv):
     t0 = time.time()
     nbad = 0
     with ThreadPoolExecutor(max_workers=jobs) as ex:
+        limits = {}
+        lf = os.path.join(os.path.dirname(files[0]), "KNOWN_LIMITS") if files else None
+        if lf and os.path.exists(lf):
+            for line in open(lf):
+                if line.strip():
+                    limits[line.split()[0]] = line.split(None, 1)[1].strip() if len(line.split(None, 1)) > 1 else ""
         for path, verdict, detail, bad in ex.map(one_refactor, files):
-            print("%-22s %-11s %s %s" % (os.path.basename(path), verdict, detail, bad if bad else ""))
-            if verdict != "ok":
+            name = os.path.basename(path)
+            if verdict == "FALSE-ALARM" and name in limits:
+                verdict = "KNOWN-LIMIT"
+            print("%-22s %-11s %s %s" % (name, verdict, detail, bad if bad else ""))
+            if verdict not in ("ok", "KNOWN-LIMIT"):
                 nbad += 1
     print("refactors: %d patches, %d not silent, %.0fs" % (len(files), nbad, time.time() - t0))
     return 1 if nbad else 0
